@@ -17,19 +17,22 @@ Ltac Zify.zify_post_hook ::= Z.div_mod_to_equations.
 
 Import Unwrapper.
 
-Lemma gen_isNewer_eq v p : g_sequencenumber_isNewer v p = is_newer v p.
-Proof. reflexivity. Qed.
+(* the proofs are by unfolding and case analysis on the tests (semantic), after a first attempt by
+   computation; uint16 parameters carry their range *)
+Lemma gen_isNewer_eq v p : 0 <= v < 65536 -> 0 <= p < 65536 -> g_sequencenumber_isNewer v p = is_newer v p.
+Proof.
+  intros Hv Hp. first [ reflexivity | gnorm; unfold is_newer, sub16; tie_cases ].
+Qed.
 
 (* Unwrap as a state transformer on (init, lastUnwrapped) *)
 Definition st_of (init : bool) (last : Z) : option Z := if init then Some last else None.
 
-Lemma gen_Unwrap_eq init last i :
+Lemma gen_Unwrap_eq init last i : 0 <= i < 65536 ->
   g_sequencenumber_Unwrapper_Unwrap init last i =
     (snd (unwrap (st_of init last) i), true, snd (unwrap (st_of init last) i)) /\
   fst (unwrap (st_of init last) i) = Some (snd (unwrap (st_of init last) i)).
 Proof.
-  unfold g_sequencenumber_Unwrapper_Unwrap, unwrap, st_of, unwrap_next. rewrite gen_isNewer_eq.
-  unfold u16, sub16. destruct init; cbn [negb fst snd]; [|split; reflexivity].
-  split; [|reflexivity].
-  repeat match goal with |- context [if ?c then _ else _] => destruct c end; reflexivity.
+  intros Hi. unfold unwrap, st_of, unwrap_next. destruct init; cbn [fst snd]; (split; [|reflexivity]).
+  - gnorm. unfold is_newer, u16, sub16. tie_cases.
+  - gnorm. tie_cases.
 Qed.
